@@ -63,7 +63,8 @@ func runSolo(e *env, rng *common.RNG) {
 		pa: map[uint32]*peerA{}, paByUID: map[uint64]*peerA{}, pexp: map[uint32]*peerExport{}, pexpAll: map[uint32]*peerExport{},
 		cexp: map[uint32]*connExport{}, embargoes: map[uint32]*peerEmbargo{}, peerStreamSeq: map[string]uint32{},
 		peerStreamID: map[string]uint32{}, boundArg: map[int]bool{}, orderReported: map[uint64]bool{},
-		everHeld: map[int]map[string]bool{}, baseHandle: map[int]*rpcbench.Handle{}}
+		everHeld: map[int]map[string]bool{}, baseHandle: map[int]*rpcbench.Handle{},
+		handleBoundT: map[int]int64{}, deadHandle: map[int]bool{}, busyHandle: map[int]*appCall{}}
 	level := rng.Intn(3)
 	s.pol = rpcbench.NewYieldPolicy(rng.Uint64(), level, yieldSites)
 	s.pol.Install()
@@ -138,9 +139,15 @@ func runSolo(e *env, rng *common.RNG) {
 			case q.pipeClass == "unreturned":
 				e.rec.Count("peer_pipelined_on_unreturned", 1)
 				e.rec.Count("peer_pipelined_total", 1)
+				// share floors (>= 20 % each) as linear counters:
+				// 5*class - total >= 0
+				e.rec.Count("share20_pipelined_unreturned", 4)
+				e.rec.Count("share20_pipelined_returned", -1)
 			case q.pipeClass == "returned":
 				e.rec.Count("peer_pipelined_on_returned", 1)
 				e.rec.Count("peer_pipelined_total", 1)
+				e.rec.Count("share20_pipelined_unreturned", -1)
+				e.rec.Count("share20_pipelined_returned", 4)
 			}
 		}
 		e.rec.Distinct(s.log.OrderHash())
@@ -458,7 +465,7 @@ func (s *solo) stepPeerPipeline() bool {
 		c := cands[s.rng.Intn(len(cands))]
 		o := s.w.Obs(c.uid)
 		unret := c.ret == nil && (c.boot == false) && (o == nil || !o.Done)
-		if unret == s.rng.Chance(3, 5) {
+		if unret == s.rng.Chance(4, 5) {
 			t = c
 			break
 		}
@@ -719,7 +726,10 @@ func (s *solo) randomParams() []paramCap {
 			pool = s.liveLocalHandles()
 		} else {
 			for _, h := range s.liveImportHandles() {
-				if s.handlePexp[h.ID] != nil {
+				// a bootstrap client may still be an unresolved promise on the
+				// Conn side (it would be exported as a local proxy): only
+				// clients that came out of a payload are passed back
+				if s.handlePexp[h.ID] != nil && !s.isBootHandle(h) {
 					pool = append(pool, h)
 				}
 			}
@@ -737,12 +747,42 @@ func (s *solo) randomParams() []paramCap {
 	return out
 }
 
+// settleBoot: a call through a bootstrap client that is being resolved at
+// that very moment can wedge the connection (Promise.resolve waits for the
+// proxy client's calls which wait for the promise: design candidate #12,
+// property C11).  The script therefore calls through a bootstrap client
+// only before the peer answered the Bootstrap (pure pipelining) or after the
+// Conn has finished it.
+func (s *solo) settleBoot(h *rpcbench.Handle) bool {
+	for _, b := range s.appBoots {
+		if b.h != h {
+			continue
+		}
+		root := b
+		if b.copyOf != nil {
+			root = b.copyOf
+		}
+		s.pump()
+		if root.pa == nil {
+			return false
+		}
+		if !root.pa.returned {
+			return true
+		}
+		return s.pumpUntil("Finish of the Bootstrap question", func() bool { return root.pa.finSeen })
+	}
+	return true
+}
+
 func (s *solo) stepAppCall() bool {
 	hs := s.liveImportHandles()
 	if len(hs) == 0 || s.closed {
 		return false
 	}
 	h := hs[s.rng.Intn(len(hs))]
+	if !s.settleBoot(h) {
+		return false
+	}
 	params := s.randomParams()
 	want := s.randomWant(params)
 	ac, send := s.newAppCall(h.ID, "handle "+h.Label, params, want)
@@ -882,7 +922,7 @@ func (s *solo) stepAppTake() bool {
 func (s *solo) stepAppReleaseAnswer() bool {
 	var cands []*appCall
 	for _, ac := range s.calls {
-		if ac.resolved && !ac.released {
+		if ac.resolved && !ac.released && atomic.LoadInt32(&ac.busy) == 0 {
 			cands = append(cands, ac)
 		}
 	}
@@ -926,6 +966,9 @@ func (s *solo) releasableHandles() []*rpcbench.Handle {
 	var out []*rpcbench.Handle
 	for _, h := range s.w.LiveHandles() {
 		if h.Plan != 0 && !s.w.PlanConsumed(h.Plan) {
+			continue
+		}
+		if a := s.busyHandle[h.ID]; a != nil && atomic.LoadInt32(&a.busy) != 0 {
 			continue
 		}
 		out = append(out, h)
